@@ -87,7 +87,7 @@ Fresh(T, f, t) ==
 FaultyCheck(n) ==
   \/ \E i \in DOMAIN Evs(n) : Evs(n)[i].e.ev = "store" /\ Evs(n)[i].e.err
   \/ \E i \in DOMAIN Evs(n) : Evs(n)[i].e.ev = "jwks" /\ Evs(n)[i].e.res = "err"
-  \/ \E i \in DOMAIN Evs(n) : Evs(n)[i].e.ev = "idp" /\ Evs(n)[i].e.answer \in {"fail", "failAfter", "odd"}
+  \/ \E i \in DOMAIN Evs(n) : Evs(n)[i].e.ev = "idp" /\ Evs(n)[i].e.answer \in {"fail", "failAfter"}
 
 \* the reads of the presented session that returned tokens
 TokReads(n) == SelectSeq(Ops(n, "GetTokenResponse"), LAMBDA x : x.e.sid = Req(n).cookie /\ Good(x) /\ x.e.res.ex)
@@ -275,8 +275,6 @@ C11IdpCauses(n, e) ==
           THEN {"stale-refresh-token-used"} ELSE {})
     \cup (IF e.clientId # ("cid:" \o e.f) \/ e.clientSecret # ("sec:" \o e.f) THEN {"wrong-client-auth-on-refresh"} ELSE {})
 
-Parsable(class) == class \notin {"garbage", "nestedJws"} \* what a JWT parser accepts as a compact form is left open for these
-
 ExpectedMerge(old, iss, t) ==
   [ id |-> IF iss.id.ex THEN iss.id.sym ELSE old.id,
     at |-> IF iss.at.ex THEN iss.at.sym ELSE old.at,
@@ -297,7 +295,7 @@ C11RespCauses(n, r) ==
                      a == w[Len(w)].e.arg
                  IN (IF a.at # m.at THEN {"merge-access-token"} ELSE {})
                     \cup (IF a.rt # m.rt THEN {"merge-refresh-token"} ELSE {})
-                    \cup (IF a.id # m.id /\ ~(e.issued.id.ex /\ ~Parsable(e.issued.id.class) /\ a.id = old.id)
+                    \cup (IF a.id # m.id /\ ~(e.issued.id.ex /\ ~e.issued.id.compact /\ a.id = old.id)   \* KeepOldIdToken: an unparsable id_token counts as omitted
                           THEN {"merge-id-token"} ELSE {})
                     \cup (IF e.issued.expiresIn > 0 /\ (a.atExp > rf[1].at + e.issued.expiresIn \/ a.atExp < rf[1].at + e.issued.expiresIn - 6)
                           THEN {"merge-access-token-expiry"} ELSE {})
@@ -367,7 +365,12 @@ C18IdpCauses(n, e) ==
 ---------------------------------------------------------------------------
 Tag(p, m, causes, n) == {V(p, m, c, n) : c \in causes}
 
+\* Checks whose request was deformed at protobuf level (Shapes) or that received a token-endpoint body from the
+\* odd-body grammar have no meaningful abstract kind / answer class: only C14 and C15 judge them.
+Opaque(n) == Req(n).shape # "none" \/ \E i \in DOMAIN Evs(n) : Evs(n)[i].e.ev = "idp" /\ Evs(n)[i].e.answer = "odd"
+
 RespViol(n, r) ==
+  IF Opaque(n) THEN Tag("C14", "NoLeak", C14RespCauses(n, r), n) \cup Tag("C15", "NoCrash", C15RespCauses(n, r), n) ELSE
        Tag("C01", "OkJustified", C01Causes(n, r), n)
   \cup Tag("C03", "NoRelogin", C03RespCauses(n, r), n)
   \cup Tag("C10", "NotDroppedEarly", C10DropCauses(n, r), n)
@@ -383,12 +386,14 @@ RespViol(n, r) ==
   \cup Tag("C18", "HonouredOnlyByCreator", C18RespCauses(n, r), n)
 
 StoreViol(n, e) ==
+  IF Opaque(n) THEN {} ELSE
        Tag("C02", "BoundOnlyIfValid", C02StoreCauses(n, e), n)
   \cup Tag("C04", "CodeConsumed", C04StoreCauses(n, e), n)
   \cup Tag("C05", "TokensOnlyUnderIssued", C05StoreCauses(n, e), n)
   \cup Tag("C09", "LoggedOutStaysDead", C09StoreCauses(n, e), n)
 
 IdpViol(n, e) ==
+  IF Opaque(n) \/ e.answer = "odd" THEN {} ELSE
        Tag("C04", "ExchangeBound", C04IdpCauses(n, e), n)
   \cup Tag("C11", "RefreshUsesLatest", C11IdpCauses(n, e), n)
   \cup Tag("C18", "OwnCredentials", C18IdpCauses(n, e), n)
@@ -439,9 +444,12 @@ StoreEv ==
   /\ viol' = viol \cup StoreViol(E.n, E)
   /\ fired' = BumpIf(BumpIf(fired, E.op = "SetTokenResponse" /\ E.fault # "before", "SetTokenResponse"),
                      Has(dead, E.sid), "storeOnLoggedOutSession")
+  \* the newest refresh token of a family is the last one the service managed to store
+  /\ latest' = IF E.op = "SetTokenResponse" /\ E.fault = "none" /\ ~E.err /\ Has(rtl, E.arg.rt)
+               THEN Put(latest, rtl[E.arg.rt].family, E.arg.rt) ELSE latest
   /\ stored' = IF E.op = "SetTokenResponse" /\ E.fault = "none" /\ ~E.err THEN stored \cup {E.sid} ELSE stored
   /\ gone' = IF (E.op = "RemoveSession" /\ E.fault # "before") \/ E.err THEN gone \cup {E.sid} ELSE gone
-  /\ UNCHANGED <<now, sc, flt, logins, presented, consumed, dead, codes, idtok, rtl, latest, lastUse, attok, br, drift>>
+  /\ UNCHANGED <<now, sc, flt, logins, presented, consumed, dead, codes, idtok, rtl, lastUse, attok, br, drift>>
 
 IdpEv ==
   /\ E.ev = "idp"
@@ -451,15 +459,10 @@ IdpEv ==
               THEN Put(idtok, E.issued.id.sym, E.issued.id) ELSE idtok
   /\ rtl' = IF E.issued.ex /\ E.issued.rt.ex
             THEN Put(rtl, E.issued.rt.sym, [family |-> E.issued.rt.family]) ELSE rtl
-  /\ latest' = IF E.issued.ex /\ E.issued.rt.ex /\ E.status = 200
-               THEN Put(latest, E.issued.rt.family, E.issued.rt.sym)
-               ELSE IF E.issued.ex /\ E.issued.rotated /\ E.status # 200 /\ E.rt # "none" /\ Has(rtl, E.rt)
-                    THEN Del(latest, rtl[E.rt].family)   \* rotated at the provider, answer lost: no expectation any more
-                    ELSE latest
   /\ attok' = IF E.issued.ex /\ E.issued.at.ex
               THEN Put(attok, E.issued.at.sym, IF E.issued.expiresIn > 0 THEN now + E.issued.expiresIn ELSE -1) ELSE attok
   /\ fired' = Bump(fired, "idp:" \o E.grant \o ":" \o E.answer)
-  /\ UNCHANGED <<now, sc, flt, logins, presented, consumed, dead, codes, lastUse, stored, gone, br, drift>>
+  /\ UNCHANGED <<now, sc, flt, logins, presented, consumed, dead, codes, latest, lastUse, stored, gone, br, drift>>
 
 JwksEv ==
   /\ E.ev = "jwks"
